@@ -418,6 +418,34 @@ def refusal_cases() -> list[tuple[str, str]]:
             out.append((f"refuse:field:{a}->{b}", f"direct {a}->{b} field conversion was answered"))
         except (ValueError, TypeError):
             out.append((f"refuse:field:{a}->{b}", ""))
+    # systems of different kinds built over one shared inner frame (optional constructor argument):
+    # a mixed dot product / comparison must be refused, or else agree with the Cartesian value
+    from symplyphysics import CoordinateSystem, dot_vectors
+    from symplyphysics.core.vectors.arithmetics import equal_vectors
+    S = CoordinateSystem.System
+    inner = CoordinateSystem(S.CARTESIAN).coord_system
+    shared = {"cartesian": CoordinateSystem(S.CARTESIAN, inner), "cylindrical": CoordinateSystem(
+        S.CYLINDRICAL, inner), "spherical": CoordinateSystem(S.SPHERICAL, inner)}
+    comps = {"cartesian": [1, 2, -1], "cylindrical": [2, sp.pi / 6, -1], "spherical": [2, sp.pi / 6,
+        sp.pi / 3]}
+    for a, b in itertools.permutations(shared, 2):
+        Va, Vb = Vector(comps[a], shared[a]), Vector(comps[b], shared[b])
+        want = R.dot(R.position(a, comps[a]), R.position(b, comps[b]))
+        try:
+            got = dot_vectors(Va, Vb)
+            out.append((f"refuse:dot-shared-frame:{a}:{b}", "" if near(got, want) else
+                f"dot product of a {a} and a {b} vector over one shared frame answered "
+                f"{short(sp.N(got, 8))}, Cartesian value {short(sp.N(want, 8))}"))
+        except (ValueError, TypeError):
+            out.append((f"refuse:dot-shared-frame:{a}:{b}", ""))
+        try:
+            eq = equal_vectors(Vector(comps[a], shared[a]), Vector(comps[a], shared[b]))
+            same_point = vnear(R.position(a, comps[a]), R.position(b, comps[a]))
+            out.append((f"refuse:equal-shared-frame:{a}:{b}", "" if bool(eq) == same_point else
+                f"a {a} and a {b} vector with the same component list compare as "
+                f"{'equal' if eq else 'different'}"))
+        except (ValueError, TypeError):
+            out.append((f"refuse:equal-shared-frame:{a}:{b}", ""))
     kinds = {"cartesian": CartesianPoint, "cylindrical": CylinderPoint, "spherical": SpherePoint}
     for sname, cs in sy.items():
         q = cs.coord_system.base_scalars()
